@@ -14,6 +14,13 @@ def make_wl(rng, k):
     spec["unmapped"] = rng.choice([0, 1, 4])
     spec["long_locus"] = 1 if (k is not None and k % 2 == 0) or rng.random() < 0.4 else 0
     spec["intergenic_multi"] = rng.choice([0, 1, 2])
+    if (k is not None and k % 4 == 2) or (k is None and rng.random() < 0.2):
+        # several files in one experiment, unmapped records in every file (dealt round-robin by the generator)
+        spec["n_bams"] = rng.choice([2, 3])
+        spec["unmapped"] = rng.choice([3, 4, 5])
+        spec["n_exp"] = 1
+    # chrP: >= 1024 short reads inside one coverage bin; a deep island whose last coverage valley is its last bin
+    spec["pile"] = 1 if (k is not None and k % 4 == 1) or (k is None and rng.random() < 0.15) else 0
     return spec, opts
 
 
